@@ -256,6 +256,11 @@ def jobs(tier):
             out.append(dict(name='io/%s/R=%d/L=%d/its=%d' % (kind, R, L, nits), func='io_view',
                             params=dict(kind=kind, R=R, L=L, nits=nits), budget=BQ if q else BT,
                             validate_every=1 if q else 4, per_path=20))
+    if q:
+        # the spill-file cache of fromdicts(generator) needs 3 data rows and 7 steps to be overwritten mid-file
+        for kind in ('fromdicts-generator', 'fromdicts-generator-noheader'):
+            out.append(dict(name='io/%s/R=3/L=7/its=2' % kind, func='io_view', params=dict(kind=kind, R=3, L=7, nits=2),
+                            budget=BQ, per_path=20))
     for kind in RANDOM_KINDS:
         for (R, L, nits, nsym) in cfgs_for(True, True):
             if nsym:
